@@ -210,12 +210,14 @@ func runC11(e *Engine, r *Report, tier string) {
 		// sufficiency guard: GetShares().LT(amount) -> fail  => passing branch has >=
 		okSuf := false
 		for _, g := range GuardsOf(subStore) {
-			ci, ok := NormCond(g)
-			if !ok || ci.Call == nil || ci.Op != ">=" {
+			rel, ok := RelOf(g)
+			if !ok {
 				continue
 			}
-			a := callArgs(ci.Call)
-			if len(a) == 2 && SameExpr(a[1], subAmt, 6) && BranchFailsClean(g.If, !g.Pol, func(i ssa.Instruction) bool { return e.EffectOf(i) != "" }) {
+			// <something> >= amount, in any spelling (LT / GT mirrored, Cmp, negated)
+			isAmt := func(v ssa.Value) bool { return SameExpr(v, subAmt, 6) }
+			notAmt := func(v ssa.Value) bool { return !SameExpr(v, subAmt, 6) }
+			if rel.Says(">=", notAmt, isAmt) && BranchFailsClean(g.If, !g.Pol, func(i ssa.Instruction) bool { return e.EffectOf(i) != "" }) {
 				okSuf = true
 			}
 		}
